@@ -163,9 +163,12 @@ func userConn(pl *plan) {
 			return
 		}
 	case "tcpmux":
-		auth := ""
-		if px.routeUser != "" {
-			auth = "Proxy-Authorization: Basic " + base64.StdEncoding.EncodeToString([]byte(px.routeUser+":x")) + "\r\n"
+		auth, proxyUser := "", px.routeUser
+		if cfg.ConnectUser != "" {
+			proxyUser = cfg.ConnectUser
+		}
+		if proxyUser != "" {
+			auth = "Proxy-Authorization: Basic " + base64.StdEncoding.EncodeToString([]byte(proxyUser+":x")) + "\r\n"
 		}
 		req := []byte(fmt.Sprintf("CONNECT %s:443 HTTP/1.1\r\nHost: %s:443\r\n%sUser-Agent: verif-c01\r\n\r\n", px.host(), px.host(), auth))
 		if cs.sv.passthrough {
@@ -239,6 +242,7 @@ func userConn(pl *plan) {
 			return
 		}
 		if id := unpadID(g[4:]); !pl.acceptsBackend(id) {
+			pl.noteWrong(id)
 			cs.fail(pl, "cross-wired", "connection made to proxy %s (backend %s) was greeted by backend %s", px.name, px.be.id, id)
 			return
 		}
@@ -288,6 +292,7 @@ func userConn(pl *plan) {
 			return false
 		}
 		if got := unpadID(id[4:28]); !pl.acceptsBackend(got) {
+			pl.noteWrong(got)
 			cs.fail(pl, "cross-wired", "connection made to proxy %s (backend %s) was answered by backend %s", px.name, px.be.id, got)
 			return false
 		}
@@ -514,4 +519,13 @@ func waitBackend(pl *plan, orderly bool) bool {
 		return false
 	}
 	return waitCh(pl.bDone, nil, 3*stallGrace)
+}
+
+// noteWrong remembers which proxy's backend answered a cross-wired connection.
+func (pl *plan) noteWrong(backendID string) {
+	for _, px := range pl.cs.pxs {
+		if px.be != nil && px.be.id == backendID {
+			pl.wrong.Store(px)
+		}
+	}
 }
